@@ -18,8 +18,6 @@ pub const M_C05: u32 = 1 << 3;
 pub const M_C07: u32 = 1 << 4;
 pub const M_C08: u32 = 1 << 5;
 pub const M_C09: u32 = 1 << 6;
-/// panics are verdicts (C04 only)
-pub const M_C04: u32 = 1 << 7;
 
 /// One output line located in its paragraph.
 #[derive(Clone, Copy, Debug)]
@@ -287,12 +285,7 @@ pub fn check_wrap(text: &str, cfg: &Cfg, mask: u32, cx: &mut Cx) {
     let d = || cfg.d();
     let lines = match cx.guard(|| wrap(text, &o)) {
         Some(l) => l,
-        None => {
-            if mask & M_C04 != 0 {
-                cx.fail("C04-wrap-panic", &d, &|| json!({"call": "wrap"}));
-            }
-            return;
-        }
+        None => return, // reported by guard as "subject-panicked"
     };
     cx.outcome(&lines);
     let les = cfg.ending();
